@@ -104,6 +104,8 @@ class Pool:
         wide = [("none", None, None, False)]
         for lab, d in defs:
             wide.append((lab, truth[lab], CRS(d), False))
+            if d.upper().startswith("EPSG:"):
+                continue  # `_epsg` is filled at construction: there is no lazy state to vary
             c = CRS(d)
             _ = c.epsg  # the lazy slot is now a code, or None
             wide.append((lab + "+read", truth[lab], c, True))
@@ -119,6 +121,7 @@ class Pool:
         self._str: Dict[str, int] = {}
         self._reps: List[Any] = []
         self._keep: List[Any] = []
+        self._cls: Dict[int, int] = {}
         for e in wide:
             if e[2] is not None:
                 self.rec(e[2])
@@ -133,14 +136,16 @@ class Pool:
         s = crs._str  # pylint: disable=protected-access
         if s not in self._str:
             self._str[s] = len(self._str) + 1
-        cls = None
-        for i, r in enumerate(self._reps):
-            if r == p:
-                cls = i + 1
-                break
+        cls = self._cls.get(id(p))
         if cls is None:
-            self._reps.append(p)
-            cls = len(self._reps)
+            for i, r in enumerate(self._reps):
+                if r == p:
+                    cls = i + 1
+                    break
+            if cls is None:
+                self._reps.append(p)
+                cls = len(self._reps)
+            self._cls[id(p)] = cls   # `p` is kept alive in _keep, the address cannot be recycled
         epsg = crs._epsg or 0  # pylint: disable=protected-access
         return f"{self._obj[id(p)]}:{epsg}:{self._str[s]}:{cls}"
 
@@ -392,6 +397,7 @@ class Ctx:
         self.real = Real()
         self.gmod, self.gbmod, self.CRS, self.CRSMismatchError = _mods()
         self.cases: List[Dict[str, Any]] = []
+        self._rawcache: Dict[Any, Any] = {}
 
     # ---- operand construction
     def tagged(self, raw, crs):
@@ -463,9 +469,15 @@ class Ctx:
         if expr is None:
             return f"OK tag={tag} unexpected-success", info
         try:
-            with warnings.catch_warnings():
-                warnings.simplefilter("ignore")
-                rawv = self.raw.eval(name, expr, strip)
+            ck = (name, expr, tuple(id(r) for r in case["raws"]))
+            if ck in self._rawcache:
+                rawv = self._rawcache[ck]
+            else:
+                with warnings.catch_warnings():
+                    warnings.simplefilter("ignore")
+                    rawv = self.raw.eval(name, expr, strip)
+                if not hasattr(rawv, "__next__"):
+                    self._rawcache[ck] = rawv
             same = self.raw.same(res, rawv) if name != "geom.common_crs" else True
         except Exception as e2:  # pylint: disable=broad-except
             same = False
@@ -494,7 +506,7 @@ class Ctx:
             # every differing operand differs from the first only through the known lazy-EPSG equality defect?
             odd = [e for e in ents if e[1] != truths[0]]
             fuzzy = (ents[0][2] is not None and all(self.pool.fuzzy_code_match(ents[0], e) for e in odd))
-            key = KNOWN_FUZZY if (not ok and fuzzy and exc is None) else f"mixed-crs-accepted:{name}"
+            key = KNOWN_FUZZY if (not ok and fuzzy) else f"mixed-crs-accepted:{name}"
             if key == KNOWN_FUZZY:
                 what = ("CRS.__eq__ trusts the EPSG code that PROJ's fuzzy to_epsg() cached in _epsg after `.epsg` was read: "
                         + what)
@@ -790,13 +802,20 @@ def check_conv_eq(C: Ctx):
     shape = (16, 16)
     lonlat = [(2.25, 2.25), (2.25, 5.5), (6.75, 5.5), (6.75, 2.25), (2.25, 2.25)]
 
+    memo: Dict[Any, Any] = {}
+    trs: Dict[int, Any] = {}
+
     def in_crs(crs, pts=None):
         """the same region expressed in `crs` (pixel-ish numbers when there is no CRS)"""
         pts = lonlat if pts is None else pts
         if crs is None:
             return pts
-        tr = pyproj.Transformer.from_crs("EPSG:4326", crs.proj, always_xy=True)
-        return [tr.transform(x, y) for x, y in pts]
+        k = (id(crs.proj), tuple(pts))
+        if k not in memo:
+            if id(crs.proj) not in trs:
+                trs[id(crs.proj)] = pyproj.Transformer.from_crs("EPSG:4326", crs.proj, always_xy=True)
+            memo[k] = [trs[id(crs.proj)].transform(x, y) for x, y in pts]
+        return memo[k]
 
     def gbox_in(crs, n=8, pts=None):
         """a geobox over the same region, axis aligned in its own CRS"""
@@ -1038,10 +1057,23 @@ def replay(R: Run, rec) -> int:
         hit = probe_undeclared(C, case["op"])
         print("probe:", hit)
         return 1 if hit else 0
+    if key in ("crs-eq-ground-truth", KNOWN_FUZZY, "crs-record-wellformed") and "a" in case and "b" in case and "op" not in case:
+        pool = Pool(True)
+
+        def get(lab):
+            base = lab.replace("+copy", "").replace("+pickle", "")
+            e = pool.by_label[base]
+            return e
+
+        ea, eb = get(case["a"]), get(case["b"])
+        got = bool(ea[2] == eb[2])
+        print(f"CRS[{ea[0]}] == CRS[{eb[0]}] -> {got}; pyproj on fresh objects of the two definitions: {ea[1] == eb[1]}; "
+              f"_epsg slots: {ea[2]._epsg if ea[2] is not None else None} / {eb[2]._epsg if eb[2] is not None else None}")  # pylint: disable=protected-access
+        return 0 if got == (ea[1] == eb[1]) else 1
     labels = case.get("tags")
     name = case.get("op")
     if not labels or not name or key.split(":")[0] not in (
-            "mixed-crs-accepted", "equal-crs-rejected", "result-differs-from-raw", "result-crs-tag"):
+            "mixed-crs-accepted", "equal-crs-rejected", "result-differs-from-raw", "result-crs-tag", KNOWN_FUZZY):
         print("nothing replayable on the real code for this record (model/proof side)")
         return 1 if rec.get("kind") == "no-failing-input-found" else 0
     C.pool = Pool(True)
